@@ -335,6 +335,11 @@ fn main() {
             }
         }
     });
+    // hidden-state monitor: sampled events of all shards again, mixed, on one thread (ctx::run_mix)
+    {
+        let mut local = Local { walks: WalkCache::default() };
+        run_mix(&mut ctx, seed, |c, e| exec_dispatch(c, e, &mut local));
+    }
     let mut required = Vec::new();
     for g in Group::ALL {
         for n in 0..=8usize {
